@@ -215,6 +215,19 @@ where
         // the welcome is stored.
         let rumor_event_id = rumor_event.id.ok_or(Error::MissingRumorEventId)?;
 
+        // A welcome is stored under its rumor id. If one is already stored under this id it is
+        // the same invitation delivered again under a different wrapper id (or another rumor
+        // claiming that id): return what is stored instead of processing it a second time,
+        // which would reset an accepted or declined welcome (and its group) to pending, or
+        // replace the stored welcome with a different one.
+        if let Some(existing) = self
+            .storage()
+            .find_welcome_by_event_id(&rumor_event_id)
+            .map_err(|e| Error::Welcome(e.to_string()))?
+        {
+            return Ok(existing);
+        }
+
         let welcome_preview = self.preview_welcome(wrapper_event_id, rumor_event)?;
 
         // Create a pending group
